@@ -1,17 +1,63 @@
-"""The REAL composition (SystemBuilder: engine + TWO exchanges, each with its own request channel, ExecutionManager and
-MockExchange behind a MockExecution client + merged account feed, HistoricalClock, balances seeded through the builder) driven by
+"""The REAL composition (SystemBuilder: engine + TWO traded exchanges, each with its own request channel, ExecutionManager and
+MockExchange behind a MockExecution client + merged account feed + market stream, HistoricalClock, balances seeded through the
+builder; in three runs out of four a THIRD, DATA-ONLY exchange - instruments indexed, market items and disconnect notices, no
+execution link - that sorts first / in the middle / last in ExchangeId order) driven by
 harness/src/bin/system.rs and validated against spec/BarterSystem.tla (requests answered exactly once,
-in flight => resolved at quiescence, the disconnect notice of a killed execution link) and
+in flight => resolved at quiescence, the disconnect notice of a killed execution link, market notices of every tracked
+exchange, the connectivity view) and
 spec/Freshness.tla (seeded and exchange-delivered balances). One set of runs, several verdicts:
 each property reports only its own tags."""
 import json
 
-C07_TAGS = {"request_never_answered", "answer_without_request", "in_flight_never_resolved"}
-C14_TAGS = {"link_down_notice", "link_down_count", "conn_view"}
-# an account event that comes back in the name of another exchange than the one the request was addressed to
+import vlib
+
+# manager_down: an execution manager that stopped serving its request channel on its own (nothing handed to it can be answered)
+C07_TAGS = {"request_never_answered", "answer_without_request", "in_flight_never_resolved", "manager_down"}
+# disconnect notices (account and market stream, traded and data-only exchanges): noticed once, counted, on-disconnect invoked
+# exactly once for the right exchange; the connectivity view per tracked exchange and globally
+C14_TAGS = {"link_down_notice", "link_down_count", "conn_view", "on_disconnect_calls", "market_notice_count", "market_unknown_exchange"}
+# an account event that comes back in the name of another exchange than the one the request was addressed to; a request or an
+# account item in the name of an exchange without execution link; a manager that was handed a request for a key that is not its own
 C04_TAGS = {"wrong_exchange"}
-# the System API hands exactly the commands it was given to the engine, in order (cancel-orders / close-positions with their filter)
-C19_TAGS = {"command_fidelity"}
+# the System API hands exactly the commands it was given to the engine, in order (cancel-orders / close-positions with their filter);
+# request_not_sent: a command was handed over and processed, but a request it had to produce for a TRADED exchange was not handed to
+# that exchange's link (BarterSystem has no such step); request_for_data_only: a command made a request for an instrument of the
+# data-only exchange (the driver only sends FILTER commands that match those instruments, which hold no order and no position)
+C19_TAGS = {"command_fidelity", "request_not_sent", "request_for_data_only"}
+
+
+def corruptions(keep):
+    """Self-test of the binding, on every run: copies of recorded run segments with ONE field changed by hand - TLC must reject
+    exactly that line with the stated tag.  Returns [(segment lines, index of the corrupted line, expected tag, what)]."""
+    segs = []
+    for l in keep:
+        if l.get("a") == "Reset":
+            segs.append([])
+        if segs:
+            segs[-1].append(l)
+    specs = [
+        ("on_disconnect_calls", "a market disconnect notice without its on-disconnect invocation",
+         lambda l: l.get("a") == "MktDown", lambda l: dict(l, calls=[])),
+        ("conn_view", "global health negated in one engine view",
+         lambda l: l.get("a") == "State", lambda l: dict(l, **{"global": not l["global"]})),
+        ("request_not_sent", "a request for a traded exchange reported as not handed to its link",
+         lambda l: l.get("a") == "SendOpen", lambda l: {"a": "SendFail", "c": l["c"], "x": l["x"], "k": "open", "why": "no_link", "foreign": []}),
+        ("wrong_exchange", "an execution manager that was handed a request for a key that is not its own",
+         lambda l: l.get("a") == "Quiescent", lambda l: dict(l, down=["kraken"], foreign=["kraken"])),
+        ("market_notice_count", "one market notice more put into the stream than the engine processed",
+         lambda l: l.get("a") == "LinkDownCount",
+         lambda l: dict(l, mnotices=dict(l.get("mnotices", {}), kraken=l.get("mnotices", {}).get("kraken", 0) + 1))),
+    ]
+    out = []
+    for tag, what, pred, change in specs:
+        for seg in segs:
+            i = next((i for i, l in enumerate(seg) if pred(l)), None)
+            if i is not None:
+                c = list(seg[:i + 2])     # (up to the corrupted line and the engine view that follows it)
+                c[i] = change(seg[i])
+                out.append((c, i, tag, what))
+                break
+    return out
 
 
 def run(ctx, own_tags, runs=None, fresh=False):
@@ -19,12 +65,22 @@ def run(ctx, own_tags, runs=None, fresh=False):
     runs = runs or (6 if ctx.quick else 60)
     merged, merged_f = ctx.path("trace_system.ndjson"), ctx.path("trace_system_fresh.ndjson")
     n_lines = 0
+    stats = {}
+    if own_tags & C14_TAGS:
+        # C14 on the specification with a data-only exchange and the market stream of every tracked exchange (SpecMkt):
+        # ConnMatchesLinks, DataOnlyAccountDown, NeverGloballyHealthy, Noticed / Synced for both kinds of link, OnDisconnectExact
+        ctx.tlc_mc("BarterSystem", "MC_BarterSystem_dataonly.cfg" if ctx.quick else "MC_BarterSystem_dataonly_thorough.cfg", timeout=900)
     with open(merged, "w") as f, open(merged_f, "w") as ff:
         for k in range(runs):
             out, outf = ctx.path("trace_system_%d.ndjson" % k), ctx.path("trace_system_fresh_%d.ndjson" % k)
-            ctx.harness("system", "record", "--seed", ctx.seed * 100 + k, "--rounds", 80 if ctx.quick else 120,
-                        "--latency", k % 4, "--out", out, "--fresh-out", outf, timeout=300)
-            f.write(json.dumps({"a": "Reset", "run": k}) + "\n")
+            info = ctx.harness("system", "record", "--seed", ctx.seed * 100 + k, "--rounds", 80 if ctx.quick else 120,
+                               "--latency", k % 4, "--out", out, "--fresh-out", outf, timeout=300)
+            stats["runs_data_only_" + str(info.get("data_only_position"))] = stats.get("runs_data_only_" + str(info.get("data_only_position")), 0) + 1
+            for c in ("market_notices", "market_notices_data_only", "market_items_data_only", "filter_commands_matching_data_only",
+                      "on_disconnect_calls", "commands_spanning_both_exchanges", "links_killed"):
+                stats[c] = stats.get(c, 0) + int(info.get(c, 0))
+            # (the exchanges the run's engine tracks, in index order: the traded ones and the data-only one)
+            f.write(json.dumps({"a": "Reset", "run": k, "exch": info.get("exchanges", [])}) + "\n")
             for l in ctx.read_trace(out):
                 f.write(json.dumps(l) + "\n")
                 n_lines += 1
@@ -40,7 +96,21 @@ def run(ctx, own_tags, runs=None, fresh=False):
         for n, d, seg in found:
             tag = lines[n - 1].get("tag")
             ctx.violation("composition:anomaly" + (":" + tag if tag else ""), "real system run: %s [line %d]" % (d, n), dict(rp, run=seg[0].get("run")))
+        # ... followed by hand-corrupted copies of recorded segments, which TLC must reject (same TLC run)
+        n_real, expected = len(keep), []
+        with open(clean, "a") as f:
+            at = n_real
+            for seg, i, tag, what in corruptions(keep):
+                for l in seg:
+                    f.write(json.dumps(l) + "\n")
+                expected.append((at + i + 1, tag, what))
+                at += len(seg)
         n, bad, _ = ctx.tlc_trace("Trace_BarterSystem", "Trace_BarterSystem.cfg", clean)
+        for line, tag, what in expected:
+            if tag not in ctx.last_tags.get(line, []):
+                raise vlib.ToolError("composition self-test: a corrupted trace (%s) was not rejected with '%s' at line %d (got %s)" % (
+                    what, tag, line, ctx.last_tags.get(line)))
+        bad = [b for b in bad if b <= n_real]
         foreign = 0
         for b in bad:
             tags = set(ctx.last_tags.get(b, ["unconsumed"]))
@@ -52,7 +122,8 @@ def run(ctx, own_tags, runs=None, fresh=False):
             ctx.violation("composition:" + "+".join(sorted(own)),
                           "real system (SystemBuilder + MockExchange): %s at %s - not a behaviour of BarterSystem.tla [run %s, line %d]" % (
                               sorted(own), json.dumps(keep[b - 1]), seg[0].get("run"), b), dict(rp, run=seg[0].get("run")))
-        ctx.cov["composition"] = {"runs": runs, "lines": n_lines, "rejected_lines_owned_by_other_properties": foreign}
+        ctx.cov["composition"] = dict(stats, runs=runs, lines=n_lines, rejected_lines_owned_by_other_properties=foreign,
+                                      corrupted_segments_rejected=[t for _, t, _ in expected])
     if fresh:
         lines = ctx.read_trace(merged_f)
         clean = ctx.path("clean_system_fresh.ndjson")
